@@ -66,85 +66,22 @@ template <bool NoneIsLeaf>
 template PyTreeTypeRegistry* PyTreeTypeRegistry::Singleton<NONE_IS_NODE>();
 template PyTreeTypeRegistry* PyTreeTypeRegistry::Singleton<NONE_IS_LEAF>();
 
-template <bool NoneIsLeaf>
-/*static*/ void PyTreeTypeRegistry::RegisterImpl(const py::object& cls,
-                                                 const py::function& flatten_func,
-                                                 const py::function& unflatten_func,
-                                                 const py::object& path_entry_type,
-                                                 const std::string& registry_namespace) {
-    if (sm_builtins_types.find(cls) != sm_builtins_types.end()) [[unlikely]] {
-        throw py::value_error("PyTree type " + PyRepr(cls) +
-                              " is a built-in type and cannot be re-registered.");
-    }
+// NOTE: the functions below never call back into Python (`repr()`, attribute lookups, warnings,
+// finalizers) while holding `sm_mutex`. A thread that is suspended inside such a callback would
+// otherwise keep the registry locked, and every other thread that needs the registry would wait for
+// the lock while holding the GIL, i.e., the whole process would deadlock.
 
+template <bool NoneIsLeaf>
+/*static*/ bool PyTreeTypeRegistry::RegisterImpl(const py::object& cls,
+                                                 const RegistrationPtr& registration,
+                                                 const std::string& registry_namespace) {
     PyTreeTypeRegistry* const registry = Singleton<NoneIsLeaf>();
-    auto registration = std::make_shared<std::remove_const_t<RegistrationPtr::element_type>>();
-    registration->kind = PyTreeKind::Custom;
-    registration->type = py::reinterpret_borrow<py::object>(cls);
-    registration->flatten_func = py::reinterpret_borrow<py::function>(flatten_func);
-    registration->unflatten_func = py::reinterpret_borrow<py::function>(unflatten_func);
-    registration->path_entry_type = py::reinterpret_borrow<py::object>(path_entry_type);
     if (registry_namespace.empty()) [[unlikely]] {
-        if (!registry->m_registrations.emplace(cls, std::move(registration)).second) [[unlikely]] {
-            throw py::value_error("PyTree type " + PyRepr(cls) +
-                                  " is already registered in the global namespace.");
-        }
-        // NOTE: the warning may be turned into an exception (e.g., `-W error`).
-        // Roll back the registration before propagating the exception.
-        const auto warn = [&registry, &cls](const std::string& message) -> void {
-            if (PyErr_WarnEx(PyExc_UserWarning, message.c_str(), /*stack_level=*/2) < 0)
-                [[unlikely]] {
-                registry->m_registrations.erase(cls);
-                throw py::error_already_set();
-            }
-        };
-        if (IsStructSequenceClass(cls)) [[unlikely]] {
-            warn("PyTree type " + PyRepr(cls) +
-                 " is a class of `PyStructSequence`, "
-                 "which is already registered in the global namespace. "
-                 "Override it with custom flatten/unflatten functions.");
-        } else if (IsNamedTupleClass(cls)) [[unlikely]] {
-            warn("PyTree type " + PyRepr(cls) +
-                 " is a subclass of `collections.namedtuple`, "
-                 "which is already registered in the global namespace. "
-                 "Override it with custom flatten/unflatten functions.");
-        }
-    } else [[likely]] {
-        if (!registry->m_named_registrations
-                 .emplace(std::make_pair(registry_namespace, cls), std::move(registration))
-                 .second) [[unlikely]] {
-            std::ostringstream oss{};
-            oss << "PyTree type " << PyRepr(cls) << " is already registered in namespace "
-                << PyRepr(registry_namespace) << ".";
-            throw py::value_error(oss.str());
-        }
-        // NOTE: the warning may be turned into an exception (e.g., `-W error`).
-        // Roll back the registration before propagating the exception.
-        const auto warn = [&registry, &cls, &registry_namespace](const std::string& message) -> void {
-            if (PyErr_WarnEx(PyExc_UserWarning, message.c_str(), /*stack_level=*/2) < 0)
-                [[unlikely]] {
-                registry->m_named_registrations.erase(std::make_pair(registry_namespace, cls));
-                throw py::error_already_set();
-            }
-        };
-        if (IsStructSequenceClass(cls)) [[unlikely]] {
-            std::ostringstream oss{};
-            oss << "PyTree type " << PyRepr(cls)
-                << " is a class of `PyStructSequence`, "
-                   "which is already registered in the global namespace. "
-                   "Override it with custom flatten/unflatten functions in namespace "
-                << PyRepr(registry_namespace) << ".";
-            warn(oss.str());
-        } else if (IsNamedTupleClass(cls)) [[unlikely]] {
-            std::ostringstream oss{};
-            oss << "PyTree type " << PyRepr(cls)
-                << " is a subclass of `collections.namedtuple`, "
-                   "which is already registered in the global namespace. "
-                   "Override it with custom flatten/unflatten functions in namespace "
-                << PyRepr(registry_namespace) << ".";
-            warn(oss.str());
-        }
+        return registry->m_registrations.emplace(cls, registration).second;
     }
+    return registry->m_named_registrations
+        .emplace(std::make_pair(registry_namespace, cls), registration)
+        .second;
 }
 
 /*static*/ void PyTreeTypeRegistry::Register(const py::object& cls,
@@ -152,89 +89,169 @@ template <bool NoneIsLeaf>
                                              const py::function& unflatten_func,
                                              const py::object& path_entry_type,
                                              const std::string& registry_namespace) {
-    const scoped_write_lock_guard lock{sm_mutex};
+    const bool is_structseq = IsStructSequenceClass(cls);
+    const bool is_namedtuple = !is_structseq && IsNamedTupleClass(cls);
 
-    RegisterImpl<NONE_IS_NODE>(cls,
-                               flatten_func,
-                               unflatten_func,
-                               path_entry_type,
-                               registry_namespace);
-    try {
-        RegisterImpl<NONE_IS_LEAF>(cls,
-                                   flatten_func,
-                                   unflatten_func,
-                                   path_entry_type,
-                                   registry_namespace);
-    } catch (...) {
-        // Keep the two registries consistent if the second registration fails.
-        (void)UnregisterImpl<NONE_IS_NODE>(cls, registry_namespace);
-        std::rethrow_exception(std::current_exception());
+    const auto make_registration = [&]() -> RegistrationPtr {
+        auto registration = std::make_shared<std::remove_const_t<RegistrationPtr::element_type>>();
+        registration->kind = PyTreeKind::Custom;
+        registration->type = py::reinterpret_borrow<py::object>(cls);
+        registration->flatten_func = py::reinterpret_borrow<py::function>(flatten_func);
+        registration->unflatten_func = py::reinterpret_borrow<py::function>(unflatten_func);
+        registration->path_entry_type = py::reinterpret_borrow<py::object>(path_entry_type);
+        return registration;
+    };
+    const RegistrationPtr registration1 = make_registration();
+    const RegistrationPtr registration2 = make_registration();
+
+    bool is_builtin = false;
+    bool is_duplicate = false;
+    {
+        const scoped_write_lock_guard lock{sm_mutex};
+        if (sm_builtins_types.find(cls) != sm_builtins_types.end()) [[unlikely]] {
+            is_builtin = true;
+        } else if (!RegisterImpl<NONE_IS_NODE>(cls, registration1, registry_namespace)) [[unlikely]] {
+            is_duplicate = true;
+        } else if (!RegisterImpl<NONE_IS_LEAF>(cls, registration2, registry_namespace)) [[unlikely]] {
+            // Keep the two registries consistent if the second registration fails.
+            (void)UnregisterImpl<NONE_IS_NODE>(cls, registry_namespace);
+            is_duplicate = true;
+        } else [[likely]] {
+            cls.inc_ref();
+            flatten_func.inc_ref();
+            unflatten_func.inc_ref();
+            path_entry_type.inc_ref();
+        }
     }
-    cls.inc_ref();
-    flatten_func.inc_ref();
-    unflatten_func.inc_ref();
-    path_entry_type.inc_ref();
+    if (is_builtin) [[unlikely]] {
+        throw py::value_error("PyTree type " + PyRepr(cls) +
+                              " is a built-in type and cannot be re-registered.");
+    }
+    if (is_duplicate) [[unlikely]] {
+        if (registry_namespace.empty()) [[unlikely]] {
+            throw py::value_error("PyTree type " + PyRepr(cls) +
+                                  " is already registered in the global namespace.");
+        }
+        std::ostringstream oss{};
+        oss << "PyTree type " << PyRepr(cls) << " is already registered in namespace "
+            << PyRepr(registry_namespace) << ".";
+        throw py::value_error(oss.str());
+    }
+
+    if (is_structseq || is_namedtuple) [[unlikely]] {
+        std::ostringstream oss{};
+        oss << "PyTree type " << PyRepr(cls)
+            << (is_structseq ? " is a class of `PyStructSequence`, "
+                             : " is a subclass of `collections.namedtuple`, ")
+            << "which is already registered in the global namespace. "
+               "Override it with custom flatten/unflatten functions";
+        if (!registry_namespace.empty()) [[likely]] {
+            oss << " in namespace " << PyRepr(registry_namespace);
+        }
+        oss << ".";
+        if (PyErr_WarnEx(PyExc_UserWarning, oss.str().c_str(), /*stack_level=*/2) < 0)
+            [[unlikely]] {
+            // NOTE: the warning was turned into an exception (e.g., `-W error`).
+            // Roll back the registration before propagating the exception.
+            bool rolled_back = false;
+            {
+                const scoped_write_lock_guard lock{sm_mutex};
+                PyTreeTypeRegistry* const registry = Singleton<NONE_IS_NODE>();
+                RegistrationPtr current{nullptr};
+                if (registry_namespace.empty()) [[unlikely]] {
+                    const auto it = registry->m_registrations.find(cls);
+                    if (it != registry->m_registrations.end()) [[likely]] {
+                        current = it->second;
+                    }
+                } else [[likely]] {
+                    const auto it = registry->m_named_registrations.find(
+                        std::make_pair(registry_namespace, cls));
+                    if (it != registry->m_named_registrations.end()) [[likely]] {
+                        current = it->second;
+                    }
+                }
+                if (current == registration1) [[likely]] {
+                    (void)UnregisterImpl<NONE_IS_NODE>(cls, registry_namespace);
+                    (void)UnregisterImpl<NONE_IS_LEAF>(cls, registry_namespace);
+                    rolled_back = true;
+                }
+            }
+            if (rolled_back) [[likely]] {
+                // Hold the error indicator while releasing the references.
+                py::error_scope scope{};
+                cls.dec_ref();
+                flatten_func.dec_ref();
+                unflatten_func.dec_ref();
+                path_entry_type.dec_ref();
+            }
+            throw py::error_already_set();
+        }
+    }
 }
 
 template <bool NoneIsLeaf>
 /*static*/ PyTreeTypeRegistry::RegistrationPtr PyTreeTypeRegistry::UnregisterImpl(
     const py::object& cls,
     const std::string& registry_namespace) {
-    if (sm_builtins_types.find(cls) != sm_builtins_types.end()) [[unlikely]] {
-        throw py::value_error("PyTree type " + PyRepr(cls) +
-                              " is a built-in type and cannot be unregistered.");
-    }
-
     PyTreeTypeRegistry* const registry = Singleton<NoneIsLeaf>();
     if (registry_namespace.empty()) [[unlikely]] {
         const auto it = registry->m_registrations.find(cls);
         if (it == registry->m_registrations.end()) [[unlikely]] {
-            std::ostringstream oss{};
-            oss << "PyTree type " << PyRepr(cls) << " ";
-            if (IsStructSequenceClass(cls)) [[unlikely]] {
-                oss << "is a class of `PyStructSequence`, "
-                    << "which is not explicitly registered in the global namespace.";
-            } else if (IsNamedTupleClass(cls)) [[unlikely]] {
-                oss << "is a subclass of `collections.namedtuple`, "
-                    << "which is not explicitly registered in the global namespace.";
-            } else [[likely]] {
-                oss << "is not registered in the global namespace.";
-            }
-            throw py::value_error(oss.str());
+            return nullptr;
         }
         RegistrationPtr registration = it->second;
         registry->m_registrations.erase(it);
         return registration;
-    } else [[likely]] {
-        const auto named_it =
-            registry->m_named_registrations.find(std::make_pair(registry_namespace, cls));
-        if (named_it == registry->m_named_registrations.end()) [[unlikely]] {
-            std::ostringstream oss{};
-            oss << "PyTree type " << PyRepr(cls) << " ";
-            if (IsStructSequenceClass(cls)) [[unlikely]] {
-                oss << "is a class of `PyStructSequence`, "
-                    << "which is not explicitly registered ";
-            } else if (IsNamedTupleClass(cls)) [[unlikely]] {
-                oss << "is a subclass of `collections.namedtuple`, "
-                    << "which is not explicitly registered ";
-            } else [[likely]] {
-                oss << "is not registered ";
-            }
-            oss << "in namespace " << PyRepr(registry_namespace) << ".";
-            throw py::value_error(oss.str());
-        }
-        RegistrationPtr registration = named_it->second;
-        registry->m_named_registrations.erase(named_it);
-        return registration;
     }
+    const auto named_it =
+        registry->m_named_registrations.find(std::make_pair(registry_namespace, cls));
+    if (named_it == registry->m_named_registrations.end()) [[unlikely]] {
+        return nullptr;
+    }
+    RegistrationPtr registration = named_it->second;
+    registry->m_named_registrations.erase(named_it);
+    return registration;
 }
 
 /*static*/ void PyTreeTypeRegistry::Unregister(const py::object& cls,
                                                const std::string& registry_namespace) {
-    const scoped_write_lock_guard lock{sm_mutex};
-
-    const auto registration1 = UnregisterImpl<NONE_IS_NODE>(cls, registry_namespace);
-    const auto registration2 = UnregisterImpl<NONE_IS_LEAF>(cls, registry_namespace);
+    bool is_builtin = false;
+    RegistrationPtr registration1{nullptr};
+    RegistrationPtr registration2{nullptr};
+    {
+        const scoped_write_lock_guard lock{sm_mutex};
+        if (sm_builtins_types.find(cls) != sm_builtins_types.end()) [[unlikely]] {
+            is_builtin = true;
+        } else [[likely]] {
+            registration1 = UnregisterImpl<NONE_IS_NODE>(cls, registry_namespace);
+            registration2 = UnregisterImpl<NONE_IS_LEAF>(cls, registry_namespace);
+        }
+    }
+    if (is_builtin) [[unlikely]] {
+        throw py::value_error("PyTree type " + PyRepr(cls) +
+                              " is a built-in type and cannot be unregistered.");
+    }
+    if (registration1 == nullptr) [[unlikely]] {
+        EXPECT_EQ(registration2, nullptr);
+        std::ostringstream oss{};
+        oss << "PyTree type " << PyRepr(cls) << " ";
+        if (IsStructSequenceClass(cls)) [[unlikely]] {
+            oss << "is a class of `PyStructSequence`, "
+                << "which is not explicitly registered ";
+        } else if (IsNamedTupleClass(cls)) [[unlikely]] {
+            oss << "is a subclass of `collections.namedtuple`, "
+                << "which is not explicitly registered ";
+        } else [[likely]] {
+            oss << "is not registered ";
+        }
+        if (registry_namespace.empty()) [[unlikely]] {
+            oss << "in the global namespace.";
+        } else [[likely]] {
+            oss << "in namespace " << PyRepr(registry_namespace) << ".";
+        }
+        throw py::value_error(oss.str());
+    }
+    EXPECT_NE(registration2, nullptr);
     EXPECT_TRUE(registration1->type.is(registration2->type));
     EXPECT_TRUE(registration1->flatten_func.is(registration2->flatten_func));
     EXPECT_TRUE(registration1->unflatten_func.is(registration2->unflatten_func));
